@@ -977,6 +977,10 @@ func (f *framer) parsePreparedMetadata() preparedMetadata {
 	}
 
 	if meta.flags&flagNoMetaData == flagNoMetaData {
+		if meta.colCount > 0 {
+			// without the column specifications the bind values cannot be marshalled
+			panic(fmt.Errorf("received prepared metadata without column specifications for %d bind markers", meta.colCount))
+		}
 		return meta
 	}
 
